@@ -13,7 +13,7 @@ import (
 func init() {
 	register(&Property{
 		ID:        "C16",
-		Technique: "must-lockset on the route table, typestate of connection ownership in routeConn, sync.Once containment of the header write, guard analysis of route registration, close-once classification",
+		Technique: "must-lockset on the route table, typestate of connection ownership in routeConn, sync.Once containment of the header write, guard analysis of route registration, close-once classification; tested-then-dropped error (contradiction) check and interprocedural lock-pairing check over the packages the property is anchored in",
 		Explanation: "Structural conditions of the listener multiplexer and the header connection: " +
 			"(R1) the route table is touched only under ListenMux.mu; a route is registered only when the prefix has none, so the per-listener cleanup (delete by prefix) can only remove its own registration; every close(ch) is inside a sync.Once, and the error a closed channel announces is written in that same Once before the close; " +
 			"(R2) routeConn: exactly prefixLen bytes are read with io.ReadFull, the lookup key is exactly those bytes, the prefix is replayed (newPrefixConn) only on the default route, and on every path the connection is either closed or handed to exactly one listener channel, never both, never neither; " +
